@@ -100,6 +100,7 @@ def monitor_cases(rng, tier, stats):
             dt = tn.float64
             fam = "/interior-singleton"
         nswp = 30
+        gfac = 1.0
         if c % 8 == 1:
             # structured family: the sweep budget is exhausted (nswp 1..3) but the user-supplied guess already is the product, so the last
             # allowed sweep (which takes its own branch: no rank kick) must hand it back within eps
@@ -115,7 +116,15 @@ def monitor_cases(rng, tier, stats):
             decay = False
             guess = "exact"
             nswp = rng.choice([1, 2, 3])
-            fam = "/exact-guess-nswp%d" % nswp
+            # the guess is a multiple of the product (a warm start: it spans the interface spaces of the product, the value has to be recomputed)
+            gfac = [1.0, -2.5, 0.375][(c // 8) % 3]
+            fam = "/exact-guess-x%g-nswp%d" % (gfac, nswp)
+            if (c // 8) % 4 == 3:
+                # order 2: a single sweep computes the whole supercore, it is exact for ANY guess
+                d = 2; N = N[:2]; M = M[:2]; RA = [1, RA[1], 1]; Rx = [1, Rx[1], 1]
+                nswp = 1
+                guess = ["user", None][(c // 32) % 2]
+                fam = "/order2-nswp1-%s" % ("user-guess" if guess else "random-start")
         if c % 8 == 5:
             # structured family: a user-supplied guess that is EXACTLY orthogonal to the exact product (disjoint support in the last mode):
             # the projected supercore of the first sweep vanishes although the product does not
@@ -154,7 +163,7 @@ def monitor_cases(rng, tier, stats):
         label = "%s/d%d/%s%s%s%s" % (routine, d, "c128" if cplx else "f64", "/decay" if decay else "", "/guess" if guess else "", fam)
         box = {}
 
-        def impl(routine=routine, d=d, N=N, M=M, dt=dt, eps=eps, decay=decay, RA=RA, Rx=Rx, guess=guess, seed=seed, box=box, label=label, nswp=nswp, scale=scale):
+        def impl(routine=routine, d=d, N=N, M=M, dt=dt, eps=eps, decay=decay, RA=RA, Rx=Rx, guess=guess, seed=seed, box=box, label=label, nswp=nswp, scale=scale, gfac=gfac):
             tn.manual_seed(seed)
             np.random.seed(seed % (2 ** 32))
             A = torchtt.TT(rnd_cores(rng, [[RA[k], M[k], N[k], RA[k + 1]] for k in range(d)], dt, decay))
@@ -166,7 +175,7 @@ def monitor_cases(rng, tier, stats):
             if routine == "fast_matvec":
                 g = torchtt.TT(rnd_cores(rng, [[gr[k], M[k], gr[k + 1]] for k in range(d)], dt, False)) if guess else None
                 if guess == "exact":
-                    g = (A @ x).round(1e-14)
+                    g = (A @ x).round(1e-14) * gfac
                 if guess in ("zeros", "small"):
                     g = torchtt.zeros(M, dtype=dt) if guess == "zeros" else g * (scale * scale)
                 if guess == "orth":
@@ -183,7 +192,7 @@ def monitor_cases(rng, tier, stats):
                 if scale != 1.0:
                     y2 = y2 * scale
                 if guess == "exact":
-                    g = (x * y2).round(1e-14)
+                    g = (x * y2).round(1e-14) * gfac
                 if guess in ("zeros", "small"):
                     g = torchtt.zeros(N, dtype=dt) if guess == "zeros" else g * (scale * scale)
                 if guess == "orth":
@@ -221,7 +230,7 @@ def monitor_cases(rng, tier, stats):
             r = box.get("ratio")
             if r is None:
                 return "the routine raised"
-            if r > C_ERR and r * eps > 1e-13:
+            if not (r <= C_ERR or r * eps <= 1e-13):      # NaN-safe
                 return "relative error %.3g*eps exceeds %g*eps (eps=%.2g, %s)" % (r, C_ERR, eps, label)
             return None
         cases.append(Case(None, impl, oracle, "monitor/" + label, True, desc="%s N=%s M=%s RA=%s Rx=%s eps=%.2g seed=%d" % (label, N, M, RA, Rx, eps, seed)))
